@@ -860,7 +860,13 @@ func resolverHist(r *rng, n int, certDir string) error {
 					case y < 70:
 						if r.coin(30) {
 							// announce a profile change at a virtual time: expressed on the real axis as t0 + (lv - vnow)
-							lv := vnow + time.Duration(r.rng(-40, 40))*time.Second
+							off := r.rng(-40, 40)
+							if off == 0 || off == 1 {
+								// a stamp within a second of "now" compares differently with entries stored a few (real)
+								// milliseconds earlier or later in this history: the model's clock has no such sub-second part
+								off = -3
+							}
+							lv := vnow + time.Duration(off)*time.Second
 							if r.coin(25) {
 								// the upstream's clock and the device's disagree: stamps minutes to hours away from "now", either side
 								lv = vnow + time.Duration(r.rng(-7200, 7200))*time.Second
